@@ -47,6 +47,7 @@ func init() {
 			ruleInject(c, "C04.INJECT")
 			ruleFkWiring(c, "C04.WIRING")
 			ruleFkExists(c, "C04.EXISTS")
+			ruleOwnPresence(c, "C04.PRESENT")
 			ruleOldFirst(c, "C04.OLDFIRST", []string{"fkIndex"})
 			ruleUnchangedShortcut(c, "C04.UNCHANGED", []string{"fkIndex", "fkConstraint"})
 			ruleNoRemoveAfterAdd(c, "C04.PHASES", []string{"fkIndex"})
@@ -66,6 +67,7 @@ func init() {
 		Trusted:     []string{"go/types", "golang.org/x/tools/go/ssa v0.29.0", "bbolt"},
 		Rules: func(c *Ctx) {
 			ruleLinkPair(c, "C05.PAIR")
+			ruleTaggedOnce(c, "C05.KEYTAG")
 			ruleLinkMissing(c, "C05.MISSING")
 			ruleRcCheck(c, "C05.RCCHECK")
 			ruleLinkCleanup(c, "C05.CLEANUP")
@@ -118,6 +120,12 @@ func init() {
 			ruleLinkCleanup(c, "C06.LINKS")
 			ruleFkDelete(c, "C06.CASCADE")
 			ruleCleanupPlacement(c, "C06.LINKS")
+			// a link that was removed earlier (RemoveLinks / SetLinks) must be gone from BOTH sides: the delete
+			// only walks the links the entity still holds
+			ruleLinkPair(c, "C06.PAIR")
+			// what a delete removes are the entries of the CURRENT values: every earlier update must have told
+			// every constraint (parent contexts included) about the change
+			ruleProtocol(c, "C06.PROTOCOL")
 			ruleNoMutateWhileIterating(c, "C06.ITERATE", c.prodFuncs("boltz"))
 			ruleChildPaths(c, "C06.PATHS")
 		},
@@ -187,11 +195,12 @@ func ruleProtocol(c *Ctx, rule string) {
 		ri := reachWithout(pdc, w.is)
 		ok := true
 		for _, r := range returnsOf(pdc) {
-			if !isNilConst(r.Results[0]) && ri.Reaches(r) {
+			// (a return that reports a failure aborts the transaction: nothing of the entity is left half-removed)
+			if !isNilConst(r.Results[0]) && ri.ReachesSuccess(r, errorResultIndex(pdc.Signature)) {
 				ok = false
 			}
 		}
-		c.Check(ok, rule, FnName(pdc)+": "+w.what, p.Pos(pdc.Pos()), "every return that hands back a change flow (entity found) has run "+w.what, "a change flow is returned without running "+w.what+": index/link entries of the deleted entity survive")
+		c.Check(ok, rule, FnName(pdc)+": "+w.what, p.Pos(pdc.Pos()), "every possibly-successful return that hands back a change flow (entity found) has run "+w.what, "a change flow is returned without running "+w.what+": index/link entries of the deleted entity survive")
 	}
 	// IndexingContext.Process*: parent first, then every constraint
 	for _, f := range []*types.Func{icBefore, icAfter, icDel} {
@@ -275,6 +284,32 @@ func ruleProtocol(c *Ctx, rule string) {
 					for _, s := range b.Succs {
 						if !l.Blocks[s] && b != l.Header {
 							ok, why = false, "the constraint loop can be left early"
+						}
+					}
+				}
+			}
+			// ... and no iteration skips the call: every constraint is told about every change (a constraint that
+			// decides it is not concerned does so itself, against the stored values)
+			if l != nil && ok {
+				seen := map[*ssa.BasicBlock]bool{}
+				var work []*ssa.BasicBlock
+				for _, s := range l.Header.Succs {
+					if l.Blocks[s] {
+						work = append(work, s)
+					}
+				}
+				for len(work) > 0 {
+					b := work[len(work)-1]
+					work = work[:len(work)-1]
+					if seen[b] || b == elemCall.Block() {
+						continue
+					}
+					seen[b] = true
+					for _, s := range b.Succs {
+						if s == l.Header {
+							ok, why = false, "an iteration of the constraint loop can skip the constraint (for instance because of the fields an update names): its index entries are then neither removed nor added while the stored value changes"
+						} else if l.Blocks[s] {
+							work = append(work, s)
 						}
 					}
 				}
@@ -1887,4 +1922,150 @@ func isFreshAlloc(v ssa.Value) bool {
 		return len(x.Edges) > 0
 	}
 	return false
+}
+
+// ruleOwnPresence: "is this id an entity of THIS store" is answered from the store's own entity bucket
+// (for a child store: the child data below the parent's entity bucket) and from nothing else.  The foreign
+// key existence checks, the scanners' child filter and the integrity checks all rely on that meaning; an
+// answer delegated to the parent store makes parent-only ids count as entities of the child store.
+func ruleOwnPresence(c *Ctx, rule string) {
+	p := c.P
+	fn := p.SSAFunc(p.Method("boltz", "BaseStore", "IsEntityPresent"))
+	name := FnName(fn)
+	c.Analysed(name)
+	geb := p.Method("boltz", "BaseStore", "GetEntityBucket")
+	var own func(v ssa.Value, depth int) bool
+	own = func(v ssa.Value, depth int) bool {
+		if depth > 4 {
+			return false
+		}
+		switch x := v.(type) {
+		case *ssa.BinOp:
+			if x.Op != token.EQL && x.Op != token.NEQ {
+				return false
+			}
+			other := x.X
+			if isNilConst(x.X) {
+				other = x.Y
+			} else if !isNilConst(x.Y) {
+				return false
+			}
+			call, ok := other.(*ssa.Call)
+			return ok && isCallTo(call, geb) && len(call.Call.Args) > 0 && call.Call.Args[0] == ssa.Value(fn.Params[0])
+		case *ssa.UnOp:
+			return x.Op == token.NOT && own(x.X, depth+1)
+		case *ssa.Phi:
+			for _, e := range x.Edges {
+				if _, isConst := boolConst(e); isConst {
+					continue
+				}
+				if !own(e, depth+1) {
+					return false
+				}
+			}
+			return true
+		}
+		return false
+	}
+	ok, why := true, ""
+	for _, r := range returnsOf(fn) {
+		if len(r.Results) != 1 || !own(r.Results[0], 0) {
+			ok = false
+			why = "the answer returned at " + p.Pos(r.Pos()) + " is " + describeValue(r.Results[0]) + ", not a nil test of this store's own GetEntityBucket(tx, id): ids that exist only in another (parent) store count as entities of this store, so foreign keys into it accept them and scans surface them"
+		}
+	}
+	c.Check(ok, rule, name, p.Pos(fn.Pos()), "presence is the existence of this store's own entity bucket for the id", why)
+	c.Floor(rule, 1)
+}
+
+// ruleTaggedOnce: a stored key is the type tag followed by the value — once.  Functions that prepend the
+// tag to one of their parameters (PrependFieldType and everything that hands a parameter on to it) are never
+// given a value that already carries the tag: the entry would be stored under a doubly tagged key that no
+// reader (IsKeyPresent, cursors, the remote side of a link) ever looks for.
+func ruleTaggedOnce(c *Ctx, rule string) {
+	p := c.P
+	prepend := p.Func("boltz", "PrependFieldType")
+	type slot struct {
+		fn  *types.Func
+		idx int // index into the call's Args (receiver included for methods)
+	}
+	taggers := map[slot]bool{{prepend, 1}: true}
+	fns := c.prodFuncs("boltz")
+	paramIndex := func(fn *ssa.Function, v ssa.Value) int {
+		for i, q := range fn.Params {
+			if ssa.Value(q) == v {
+				return i
+			}
+		}
+		return -1
+	}
+	for changed := true; changed; {
+		changed = false
+		for _, fn := range fns {
+			obj, _ := fn.Object().(*types.Func)
+			if obj == nil {
+				continue
+			}
+			for _, call := range callsIn(fn) {
+				cal, _ := calleeOf(call.Common())
+				if cal == nil || call.Common().IsInvoke() {
+					continue
+				}
+				for i, a := range call.Common().Args {
+					if !taggers[slot{cal, i}] {
+						continue
+					}
+					if pi := paramIndex(fn, a); pi >= 0 && !taggers[slot{obj.Origin(), pi}] {
+						taggers[slot{obj.Origin(), pi}] = true
+						changed = true
+					}
+				}
+			}
+		}
+	}
+	var tagged func(v ssa.Value, depth int) bool
+	tagged = func(v ssa.Value, depth int) bool {
+		if depth > 5 || v == nil {
+			return false
+		}
+		switch x := v.(type) {
+		case *ssa.Call:
+			return isCallTo(x, prepend)
+		case *ssa.Phi:
+			for _, e := range x.Edges {
+				if tagged(e, depth+1) {
+					return true
+				}
+			}
+		case *ssa.ChangeType:
+			return tagged(x.X, depth+1)
+		case *ssa.Convert:
+			return tagged(x.X, depth+1)
+		}
+		return false
+	}
+	n, bad := 0, 0
+	for _, fn := range fns {
+		for _, call := range callsIn(fn) {
+			cal, _ := calleeOf(call.Common())
+			if cal == nil || call.Common().IsInvoke() {
+				continue
+			}
+			for i, a := range call.Common().Args {
+				if !taggers[slot{cal, i}] {
+					continue
+				}
+				n++
+				if tagged(a, 0) {
+					bad++
+					c.Bad(rule, FnName(fn)+": "+describeInstr(call), p.Pos(call.Pos()), "the value handed to "+shortObj(cal)+" already carries the type tag ("+describeValue(a)+") and is tagged again there: the entry is written under a doubly tagged key, so this side of the link/list never finds it again while the other side was written normally")
+				}
+			}
+		}
+	}
+	if bad == 0 {
+		c.OK(rule, "boltz: tagging sites", "-", fmt.Sprintf("%d call sites hand a value to a function that prepends the type tag (%d such parameters); none of the values is already tagged", n, len(taggers)))
+	}
+	c.CallSites(n)
+	c.Floor(rule, 1)
 }
